@@ -72,7 +72,8 @@ def run(ctx):
     _RW2.no_shadowed_defaults(ctx, "R05.h")
     from . import r_trigram as _RT5
     _RT5.candidate_returns(ctx, "R05.b")
-    return info("R05.h: no impl overrides a provided method of the crate's traits (Word::len / dist / is_function, LimitSort). R05.g: every reduction grows by at most one character, table entries are letters / marks, Lang::new starts with empty tables. R20.c: the search runner clears the result buffer on every path. R05.b: hits can only come from index candidates = enumerate positions whose freshly reset counter is > 0, counted "
+    RK.normalize_assigns_together(ctx, "R05.i")
+    return info("R05.i: normalisation assigns `source` and `chars` together (the highlight cuts the source at positions of the normalised text). R05.h: no impl overrides a provided method of the crate's traits (Word::len / dist / is_function, LimitSort). R05.g: every reduction grows by at most one character, table entries are letters / marks, Lang::new starts with empty tables. R20.c: the search runner clears the result buffer on every path. R05.b: hits can only come from index candidates = enumerate positions whose freshly reset counter is > 0, counted "
                 "over the shared gram generator; R05.c: records without a word match are filtered out; R05.d: NotAlphaNum / split "
                 "classes are the std predicates, so a query with a letter or digit has a word. R05.a: the |qslice - rslice| gate on the path to WordMatch::new_pair is located by data-flow "
                 "(integer abs of a difference of the two loop indices, polarity from which branch still reaches "
